@@ -150,6 +150,8 @@ class Emitter {
     json::Array                        records;
     std::set<const Stmt *>             seenElsewhere; // CFG elements evaluated in an earlier block
     const Stmt                        *curRoot = nullptr;
+    std::map<const Stmt *, unsigned>   elemBlockOf; // CFG element -> its block
+    int                                curBlock = -1;
 
     static const Stmt *norm(const Stmt *S)
     {
@@ -372,7 +374,8 @@ class Emitter {
             break;
         }
         json::Array a;
-        if (curRoot && E != curRoot && seenElsewhere.count(E)) {
+        if (curRoot && E != curRoot && seenElsewhere.count(E) &&
+            !(curBlock >= 0 && elemBlockOf.count(E) && (int)elemBlockOf[E] == curBlock)) {
             const Stmt *save = curRoot;
             curRoot          = E; // emit the tree itself once, wrapped
             json::Value inner = JE(E);
@@ -807,6 +810,7 @@ class Emitter {
                     elemBlock[norm(CS->getStmt())] = B->getBlockID();
         std::set<const Stmt *> dropped;
         seenElsewhere.clear();
+        elemBlockOf = elemBlock;
         for (const CFGBlock *B : *cfg)
             for (const CFGElement &El : *B)
                 if (auto CS = El.getAs<CFGStmt>()) {
@@ -833,7 +837,8 @@ class Emitter {
                 }
         for (const CFGBlock *B : *cfg) {
             json::Object b;
-            b["id"] = B->getBlockID();
+            b["id"]  = B->getBlockID();
+            curBlock = (int)B->getBlockID();
             json::Array stmts;
             const Stmt *last = nullptr;
             for (const CFGElement &El : *B) {
@@ -889,6 +894,7 @@ class Emitter {
             }
             blocks.push_back(std::move(b));
         }
+        curBlock    = -1;
         f["blocks"] = std::move(blocks);
         return std::move(f);
     }
